@@ -307,6 +307,88 @@ impl C11 {
     /// kind 2: the waveform seen through the ULA port while the CPU executes code full of contended
     /// internal cycles (or uncontended code, as control): the pilot's average pulse length must stay
     /// within [2168, 2200].
+    /// kind 3: the tape runs on emulated time whatever the CPU does meanwhile. Twin machines without any debug
+    /// interface play the same tape for k frames driven by plain `emulate_frames` calls - on one the CPU spins in a
+    /// `DI ; JR $` loop, on the other it sleeps in `EI ; HALT` between the frame interrupts. Then the host polls the
+    /// EAR bit on both until the first block is over: the block must end at the same emulated time, up to the 32 T
+    /// every pulse may be late (pulse boundaries are noticed at bus-wait granularity, which depends on the program).
+    fn halted_cpu_twin(&self, sc: &Scenario, ctx: &mut RunCtx) -> Result<(), Fail> {
+        use rustzx_z80::Z80Bus;
+        let m128 = sc.get("m128") != 0;
+        let k = sc.get("frames").clamp(2, 100) as usize;
+        let cfg = MCfg { m128, fastload: false, sound: false, debug: false, ..Default::default() };
+        let f = cfg.frame_len() as u64;
+        let mut rng = Rng::new(sc.get("mem_seed") as u64);
+        let len = *rng.pick(&[10usize, 30, 60]);
+        let blk = tape::std_block(0xFF, &rng.bytes(len));
+        let pulses = tape::pilot_count(&blk) + 2 + 16 * blk.len() as u64;
+        let img = tape::make_tap(&[blk.clone(), blk]);
+        let mut ends: Vec<(u64, u64)> = vec![];
+        for halted in [false, true] {
+            let mut e = new_emu(&cfg);
+            if m128 {
+                e.verif_bus().write_io(0x7FFD, 0x10);
+            }
+            if halted {
+                write_mem(&mut e, 0x8000, &[0xFB, 0x76, 0x18, 0xFC]); // EI ; HALT ; JR back
+            } else {
+                write_mem(&mut e, 0x8000, &[0xF3, 0x18, 0xFE]); // DI ; JR $
+            }
+            let mut st = crate::cpustate::CpuState::default();
+            st.pc = 0x8000;
+            st.sp = 0x8FF0;
+            st.im = 1;
+            st.to_impl(e.verif_cpu());
+            e.load_tape(Tape::Tap(AnyAsset::Sim(SimAsset::plain(img.clone())))).map_err(|x| Fail::new("C11.load_tape", "", format!("{:?}", x)))?;
+            e.play_tape();
+            e.set_speed(rustzx_core::EmulationMode::FrameCount(1));
+            for _ in 0..k {
+                e.emulate_frames(LONG).map_err(|x| Fail::new("C11.run", "", format!("{:?}", x)))?;
+            }
+            let mut st = cpu_state(&mut e);
+            st.pc = 0x8000;
+            st.iff1 = false;
+            st.iff2 = false;
+            st.halted = false;
+            st.to_impl(e.verif_cpu());
+            let mut t = k as u64 * f + e.verif_frame_clocks() as u64;
+            let limit = t + 260 * f;
+            let mut level = (e.verif_bus().read_io(0x7FFE) >> 6) & 1;
+            let mut last = e.verif_frame_clocks() as u64;
+            let mut last_edge = t;
+            let mut n_edges = 0u64;
+            while t < limit {
+                let v = (e.verif_bus().read_io(0x7FFE) >> 6) & 1;
+                let now = e.verif_frame_clocks() as u64;
+                t += if now >= last { now - last } else { now + f - last };
+                last = now;
+                if v != level {
+                    last_edge = t;
+                    n_edges += 1;
+                    level = v;
+                } else if n_edges > 0 && t - last_edge > 20_000 {
+                    break; // the pause behind the block
+                }
+            }
+            ctx.sim_t += t;
+            ends.push((last_edge, n_edges));
+        }
+        ctx.probe("tape_time_with_halted_cpu");
+        let (a, b) = (ends[0], ends[1]);
+        if a.0.abs_diff(b.0) > 32 * pulses + 64 {
+            return Err(Fail::new(
+                "C11.tape_time_depends_on_cpu",
+                &format!("machine={}", if m128 { "128k" } else { "48k" }),
+                format!(
+                    "the first block ({} pulses) ends at T={} on a machine whose CPU was busy for the first {} frames and at T={} on one whose CPU slept in HALT (allowed: 32 T per pulse)",
+                    pulses, a.0, k, b.0
+                ),
+            ));
+        }
+        ctx.units += 1;
+        Ok(())
+    }
+
     fn system_waveform(&self, sc: &Scenario, ctx: &mut RunCtx) -> Result<(), Fail> {
         let m128 = sc.get("m128") != 0;
         let contended = sc.get("contended") != 0;
@@ -412,11 +494,18 @@ impl Property for C11 {
         vec!["'about one second' is taken as 3.15M..3.85M T (plus one merged pilot pulse)", "component runs observe the EAR level after every step; pulse length = time between observed level changes", "system runs use blocks of at most 300 bytes"]
     }
     fn expected_probes(&self) -> Vec<&'static str> {
-        vec!["block_crosses_refill", "header_pilot", "deck_stopped_at_end", "system_block_loaded", "system_success", "system_failure_outcome", "system_waveform_contended_cpu", "realtime_with_fastload_setting", "play_after_partial_fast_load", "tape_longer_than_2_pow_32_t"]
+        vec!["block_crosses_refill", "header_pilot", "deck_stopped_at_end", "system_block_loaded", "system_success", "system_failure_outcome", "system_waveform_contended_cpu", "realtime_with_fastload_setting", "play_after_partial_fast_load", "tape_longer_than_2_pow_32_t", "tape_time_with_halted_cpu"]
     }
 
     fn gen(&self, rng: &mut Rng, tier: Tier, idx: u64) -> Scenario {
         let mut sc = Scenario::new();
+        if idx % 52 == 38 {
+            sc.set("kind", 3);
+            sc.set("m128", rng.bool() as i64);
+            sc.set("frames", *rng.pick(&[5i64, 20, 60, 90]));
+            sc.set("mem_seed", (rng.next() >> 8) as i64);
+            return sc;
+        }
         if idx % 26 == 12 {
             sc.set("kind", 2);
             sc.set("m128", rng.bool() as i64);
@@ -494,6 +583,7 @@ impl Property for C11 {
         match sc.get("kind") {
             0 => self.component(sc, ctx),
             2 => self.system_waveform(sc, ctx),
+            3 => self.halted_cpu_twin(sc, ctx),
             _ => self.system(sc, ctx),
         }
     }
